@@ -40,6 +40,9 @@ var c07Reqs = []c07Req{
 	{"scalars", `{ x1 x2 leafy { s i } }`, nil},
 	{"typed-fragment-merge", `{ a { ...P } c { ...P } nodes(n:3) { ...P } } fragment P on Node { peer(as:"B") { id } ... on A { peer(as:"B") { ... on B { bOnly } } } ... on C { peer(as:"B") { name } } }`, nil},
 	{"fieldresolver-static-args", `{ plainFR { echoArg(x:5, y:2) e2: echoArg name } x1 }`, nil},
+	// executed only as an unvalidated prepared plan: the literal makes user code
+	// (ParseLiteral) panic while an abstract alternative is being planned lazily
+	{"lazy-plan-panic", `{ node(as:"A") { id ... on A { aOnly(st:"PANIC") } } nodes(n:2, as:"B") { ... on B { u(as:"A") { ... on A { name } } } } x1 }`, nil},
 	{"nested-single-possible", `{ nodes(n:3) { id ... on A { solo { ... on B { bOnly } } } ... on C { solo { ... on B { id kind } } } } c { solo { ... on B { u { ... on A { solo { ... on B { id } } } } } } } }`, nil},
 	// literal variants of one shape: under the normalising cache they share a plan
 	// (same text length: with Normalize on, error locations of a shared plan are
@@ -128,7 +131,11 @@ func (p c07) Gen(seed uint64, enum int, tier string) json.RawMessage {
 		}
 		for n := 1 + r.Intn(maxOps); n > 0; n-- {
 			kind := kinds[r.Intn(len(kinds))]
-			cl.Ops = append(cl.Ops, C07Op{Kind: kind, Req: work[r.Intn(len(work))]})
+			req := work[r.Intn(len(work))]
+			if c07Reqs[req].Name == "lazy-plan-panic" {
+				kind = "plan" // this document never passes validation's literal check unharmed
+			}
+			cl.Ops = append(cl.Ops, C07Op{Kind: kind, Req: req})
 		}
 		s.Clients = append(s.Clients, cl)
 	}
@@ -217,6 +224,15 @@ func c07Solo(op C07Op, variant uint64, world int, faults map[string]string) stri
 	case "reset":
 		return "reset"
 	}
+	if rq.Name == "lazy-plan-panic" {
+		doc, _ := parseDoc(rq.Query)
+		pl, err := graphql.PlanQuery(&w.Schema, doc, "")
+		if err != nil {
+			return "plan error: " + err.Error()
+		}
+		w.PanicLiteral = true
+		return MarshalResult(graphql.ExecutePlan(pl, graphql.ExecuteParams{Schema: w.Schema, Args: rq.Vars, Context: ctx}))
+	}
 	return MarshalResult(graphql.Do(graphql.Params{Schema: w.Schema, RequestString: rq.Query, VariableValues: rq.Vars, Context: ctx}))
 }
 
@@ -282,6 +298,12 @@ func (c07) Run(t TestingT, scn json.RawMessage, tape *Tape) *Outcome {
 		cache = graphql.NewPlanCache(graphql.PlanCacheOptions{MaxEntries: sc.MaxEntries, Normalize: sc.Normalize})
 		// prepared plans shared by all clients of a schema (planned, not yet executed)
 		plans := map[[2]int]*graphql.Plan{}
+		panicWorlds := map[int]bool{}
+		defer func() {
+			for wi := range panicWorlds {
+				worlds[wi].PanicLiteral = false
+			}
+		}()
 		for _, cl := range sc.Clients {
 			w := worlds[cl.World]
 			for _, op := range cl.Ops {
@@ -293,11 +315,20 @@ func (c07) Run(t TestingT, scn json.RawMessage, tape *Tape) *Outcome {
 				}
 				rq := c07Reqs[op.Req]
 				var pl *graphql.Plan
-				if doc, err := parseDoc(rq.Query); err == nil && graphql.ValidateDocument(&w.Schema, doc, nil).IsValid {
+				if rq.Name == "lazy-plan-panic" {
+					// prepared without validation; the literal turns hostile afterwards
+					if doc, err := parseDoc(rq.Query); err == nil {
+						pl, _ = graphql.PlanQuery(&w.Schema, doc, "")
+					}
+					panicWorlds[cl.World] = true
+				} else if doc, err := parseDoc(rq.Query); err == nil && graphql.ValidateDocument(&w.Schema, doc, nil).IsValid {
 					pl, _ = graphql.PlanQuery(&w.Schema, doc, "")
 				}
 				plans[[2]int{cl.World, op.Req}] = pl
 			}
+		}
+		for wi := range panicWorlds {
+			worlds[wi].PanicLiteral = true
 		}
 		for ci := range sc.Clients {
 			cl := sc.Clients[ci]
@@ -450,8 +481,63 @@ func newRaceReports(prop string) []Violation {
 			}
 			tops = append(tops, strings.TrimPrefix(top, "github.com/graphql-go/graphql."))
 		}
+		allocBy := ""
+		if !lib && len(paras) >= 2 {
+			// Both accesses are in user callbacks that the library invoked
+			// (library frames beneath the callback frame): they raced on an object
+			// both were handed - an argument map, a variable map, a path. The
+			// harness's own state in callbacks is mutex-protected and the
+			// scheduler never appears in such a stack.
+			invoked := 0
+			for _, para := range paras[:2] {
+				seenHarness, seenLibBelow := false, false
+				for _, m := range reFrame.FindAllStringSubmatch(para, -1) {
+					fn := m[1]
+					if strings.HasPrefix(fn, "verif/sim") {
+						if seenLibBelow {
+							break
+						}
+						seenHarness = true
+					} else if strings.HasPrefix(fn, "github.com/graphql-go/graphql") && seenHarness {
+						seenLibBelow = true
+					}
+				}
+				if seenHarness && seenLibBelow {
+					invoked++
+				}
+			}
+			if invoked == 2 {
+				allocBy = "the library (both callbacks were invoked by it)"
+				lib = true
+			}
+		}
+		if !lib {
+			// Both accesses are in user callbacks. If the memory was allocated by
+			// library code (an argument map, a variable map, a path handed to two
+			// invocations), sharing it is the library's doing.
+			for _, para := range paras {
+				if !strings.HasPrefix(strings.TrimSpace(para), "Location is heap block") {
+					continue
+				}
+				for _, m := range reFrame.FindAllStringSubmatch(para, -1) {
+					fn := m[1]
+					if strings.HasPrefix(fn, "verif/sim") {
+						break
+					}
+					if strings.HasPrefix(fn, "github.com/graphql-go/graphql") && !strings.Contains(fn, "/verifmo.") {
+						allocBy = strings.TrimPrefix(fn, "github.com/graphql-go/graphql.")
+						lib = true
+						break
+					}
+				}
+			}
+		}
 		if len(rep) > 3500 {
 			rep = rep[:3500]
+		}
+		if allocBy != "" {
+			out = append(out, Violation{Class: prop + "/data-race", Detail: "data race between two user callbacks on an object handed out by " + allocBy + "\n" + rep})
+			continue
 		}
 		if !lib {
 			out = append(out, Violation{Class: prop + "/harness-race", Detail: rep})
